@@ -218,9 +218,13 @@ class Impl:
         lines.append(f"fsdefaults {o(fs._default_folder_scan_duration)} {o(fs._default_folder_restore_duration)}")
         for fo in self.folders:
             lines.append(f"addfolder {fo.name} {b(fo.deleted)} {fo.health_status.name} {fo.visible_health_status.name} "
-                         f"{fo.scan_duration} {fo.scan_countdown} {fo.restore_duration} {fo.restore_countdown}")
+                         f"{fo.scan_duration} {fo.scan_countdown} {fo.restore_duration} {fo.restore_countdown} "
+                         f"{len(fo.deleted_files)}")
+            # a deleted file's place in `deleted_files` (dict = deletion order): `restore_file` takes the first of a name
+            order = {u: i + 1 for i, u in enumerate(fo.deleted_files)}
             for f in self.files[fo.uuid]:
-                lines.append(f"addfile {fo.name} {f.name} {f.health_status.name} {f.visible_health_status.name} {b(f.deleted)}")
+                lines.append(f"addfile {fo.name} {f.name} {f.health_status.name} {f.visible_health_status.name} {b(f.deleted)} "
+                             f"{order.get(f.uuid, 0)}")
         return lines
 
     def dump(self) -> str:
